@@ -405,3 +405,39 @@ BLKW_OBLS = [blkw_obl('w_blocktables', 'h_w_blocktables'),
              blkw_obl('w_block', 'h_w_block', extra_redirect=('_ZN4CDNS9CdnsBlock17write_blocktablesERNS_11CdnsEncoderERm=stubw_blocktables@cdns',))]
 for _p in ('C02', 'C10', 'C01'):
     PROPS[_p]['obligations'] = PROPS[_p]['obligations'] + BLKW_OBLS
+
+
+# ------------------------------------------------------------------------------------------ U6 exporter at document level
+EXP_FUNCS = ['CdnsExporter::buffer_qr/buffer_aec/buffer_mm', 'CdnsExporter::write_block()', 'CdnsExporter::write_block(CdnsBlock&)', 'CdnsExporter::write_file_header', 'CdnsExporter::rotate_output<int>',
+             'CdnsExporter::~CdnsExporter', 'CdnsExporter::set_active_block_parameters', 'CdnsBlock::full/clear/set_block_parameters/get_*_count', 'CdnsEncoder::rotate_output<int>']
+EXP_ASSUME = ['one step from an arbitrary exporter state satisfying the representation invariant: item arrays below max(1,max_block_items), block counter == blocks in the current output, 1..2 parameter sets '
+              '(indices enumerated concretely), max_block_items 0..3, array sizes 0..2',
+              'CdnsBlock::write / FilePreamble::write replaced by their contract (one item, positive size: established by C02 Obl-W/C10 for the real functions)',
+              'CdnsBlock::add_* replaced by the contract "stores at most one record (none if not storable under the hints) and returns full()"; the real add_* bodies are not encoded (tables + hints: outside the bound)',
+              'the writer behind the encoder is a ghost that checks the document state at the moment it is rotated']
+EXP_VCALL = ('BaseCborOutputWriter=DocWriter',)
+
+
+def exp_obl(name, desc):
+    return Obl('exp_' + name, 'exp.cpp', 'noctor:h_exp_' + name, unwind=8, timeout=900, vcall=EXP_VCALL, desc=desc,
+               bounds={'parameter sets': '1..2', 'max_block_items': '0..3', 'buffered items per array': '0..2', 'blocks already written': '0..5'}, functions=EXP_FUNCS)
+
+
+EXP_BUF = [exp_obl('buffer_qr', 'buffer_qr from any valid state: flush exactly when an array reaches the maximum, emitted block = buffered + new record, re-armed with the active set, bytes returned == produced'),
+           exp_obl('buffer_aec', 'same for buffer_aec'), exp_obl('buffer_mm', 'same for buffer_mm'),
+           exp_obl('write_block', 'write_block(): empty blocks are not written, header before the first block, counter, re-arming'),
+           exp_obl('write_block_ext', 'write_block(block) with an application-built block'),
+           exp_obl('params', 'set_active_block_parameters: accepts exactly existing indices, writes/drops nothing')]
+EXP_ROT = [exp_obl('rotate', 'rotate_output(fd, export in {true,false}): old output closed by exactly one BREAK iff it holds blocks (else untouched), writer rotated once afterwards, counter reset, unexported records kept'),
+           exp_obl('destroy', 'destructor body: BREAK iff blocks were written; an output without blocks receives nothing')]
+PROPS['C12'] = {
+    'obligations': EXP_BUF,
+    'explanation': 'Inductive step over the exporter: every buffering operation from an arbitrary state satisfying the invariant, compared with the reference behaviour (flush iff an array reaches max(1,max); emitted block = old buffer + new record; '
+                   'buffer empty and re-armed with the active set afterwards; counters). Histories of any length follow from the step.',
+    'assumptions': EXP_ASSUME,
+}
+PROPS['C02']['obligations'] = PROPS['C02']['obligations'] + EXP_ROT + [EXP_BUF[3], EXP_BUF[4]]
+PROPS['C10']['obligations'] = PROPS['C10']['obligations'] + EXP_ROT[:1] + EXP_BUF[:5]
+PROPS['C13']['obligations'] = PROPS['C13']['obligations'] + EXP_ROT + [EXP_BUF[0]]
+PROPS['C13']['explanation'] = ('Rotation at three layers: exporter (old output closed by one BREAK or untouched, counter reset, carried-over records kept, next block writes a header with all parameter sets), '
+                               'encoder (everything buffered reaches the old sink before the writer rotates) and writers (a rotation request of the wrong kind is refused, not ignored).')
